@@ -13,6 +13,8 @@ GROUPS.append(G("line_GenerateProcessor", "harness/C20/h_as_include.c", "h_Gener
 GROUPS.append(G("lst_MakeList", "harness/C19/h_asmlist.c", "h_MakeList", enforce=[], link=[], stubs=["stubs/gerr.c"], unwind=15, unwindset=["MakeList.0:8", "MakeList.1:14"], flags=["--slice-formula"], timeout=900, dfcc=False, drop_unused=True,
                 object_bits=12, defs=["-DSTRINGSIZE=64"], functions=["MakeList"],
                 bounded="lines of 0..12 code bytes; every (granularity, listing granularity) pair set up by the code generators; column widths of any radix"))
+GROUPS.append(G("shr_CodeSHARED", "harness/C10/h_asmallg.c", "h_CodeSHARED", enforce=[], link=["asmdef.c", "tempresult.c"], stubs=["stubs/gerr.c"], unwind=8, timeout=600, dfcc=False, drop_unused=True,
+                object_bits=12, defs=["-DVERIF_SHARED"], functions=["CodeSHARED", "IntLine"], bounded="one or two arguments, integer symbols (float / string values not explored), no comment"))
 TRUSTED_BASE = ["GetFileNum / AddAddressRange logging stubs", "stubs of h_as_writecode.c"]
 ASSUMPTIONS = []
 NOT_COVERED = ["MakeList for lines of more than 12 bytes (bounded) and of more than 65535 bytes (16-bit EffLen)", "PrintSymbolList / PrintDebSymbols / CodeSHARED (symbol values in listing, MAP and share file)", "BookKeeping (asmsub.c) argument passing", "Atmel/NoICE debug formats"]
